@@ -168,17 +168,14 @@ fn check_gfa<K: Kmer>(
 ) -> Result<(), String> {
     let k = K::k();
     let ctx = |e: String| format!("{}: {}", what, e);
-    let mut lines = text.lines();
-    match lines.next() {
-        Some(h) if h.starts_with("H\t") => {}
-        other => return Err(ctx(format!("first line is not a header: {:?}", other))),
-    }
+    let lines = text.lines();
     let mut seen_s: BTreeMap<usize, Seq> = BTreeMap::new();
     let mut lcount: BTreeMap<Seq, usize> = BTreeMap::new();
     let mut pending: Vec<(usize, String, usize, String, String)> = Vec::new();
     for line in lines {
         let f: Vec<&str> = line.split('\t').collect();
         match f[0] {
+            "H" | "#" => {}
             "S" => {
                 if f.len() < 3 {
                     return Err(ctx(format!("malformed S line '{}'", line)));
@@ -202,18 +199,14 @@ fn check_gfa<K: Kmer>(
                             return Err(ctx(format!("S line of node {} has tags {:?}, want '{}'", id, f.get(3), want)));
                         }
                     }
-                    None => {
-                        if f.len() != 3 {
-                            return Err(ctx(format!("S line of node {} has unexpected extra fields", id)));
-                        }
-                    }
+                    None => {} // optional tags after the sequence are legal GFA
                 }
                 if seen_s.insert(id, gm.nodes[id].seq.clone()).is_some() {
                     return Err(ctx(format!("node {} is listed twice", id)));
                 }
             }
             "L" => {
-                if f.len() != 6 {
+                if f.len() < 6 {
                     return Err(ctx(format!("malformed L line '{}'", line)));
                 }
                 let a: usize = f[1].parse().map_err(|_| ctx(format!("bad id in '{}'", line)))?;
@@ -301,9 +294,19 @@ fn check_json<K: Kmer>(
     if nodes.len() != gm.nodes.len() {
         return Err(ctx(format!("{} node records for {} nodes", nodes.len(), gm.nodes.len())));
     }
-    for (i, n) in nodes.iter().enumerate() {
-        if n["id"] != json!(i.to_string()) || n["L"] != json!(gm.nodes[i].seq.len()) {
-            return Err(ctx(format!("node record {} has id/length {} / {}", i, n["id"], n["L"])));
+    let mut seen_ids: BTreeSet<usize> = BTreeSet::new();
+    for n in nodes.iter() {
+        // records are matched to nodes by their id field (the order of records is not part of the property)
+        let i: usize = n["id"]
+            .as_str()
+            .and_then(|x| x.parse().ok())
+            .or_else(|| n["id"].as_u64().map(|x| x as usize))
+            .ok_or_else(|| ctx(format!("node record without a usable id: {}", n)))?;
+        if i >= gm.nodes.len() || !seen_ids.insert(i) {
+            return Err(ctx(format!("node id {} is out of range or listed twice", i)));
+        }
+        if n["L"] != json!(gm.nodes[i].seq.len()) {
+            return Err(ctx(format!("node record {} has length {}", i, n["L"])));
         }
         if n["D"] != json!({"count": gm.nodes[i].data.count, "n": gm.nodes[i].data.n}) {
             return Err(ctx(format!("node record {} carries data {}", i, n["D"])));
@@ -319,13 +322,20 @@ fn check_json<K: Kmer>(
             want.push(json!({"source": i.to_string(), "target": t.to_string(), "D": if d2u(d) == LEFT { "L" } else { "R" }}));
         }
     }
-    if *links != want {
-        return Err(ctx(format!(
-            "links array has {} records, the graph has {} right-going edges (first difference at {:?})",
-            links.len(),
-            want.len(),
-            links.iter().zip(want.iter()).position(|(a, b)| a != b)
-        )));
+    {
+        let key = |v: &Value| serde_json::to_string(v).unwrap_or_default();
+        let mut a: Vec<String> = links.iter().map(key).collect();
+        let mut b: Vec<String> = want.iter().map(key).collect();
+        a.sort();
+        b.sort();
+        if a != b {
+            return Err(ctx(format!(
+                "links array has {} records, the graph has {} right-going edges; first record not matched: {:?}",
+                links.len(),
+                want.len(),
+                a.iter().find(|x| !b.contains(x)).or_else(|| b.iter().find(|x| !a.contains(x)))
+            )));
+        }
     }
     if let Some(Value::Object(r)) = rest {
         for (key, val) in r {
